@@ -73,7 +73,7 @@ def mDaemon (dm : Nat → DS) (d : Nat) : Nat := if dm d = .running then 1 else 
 def mu (cfg : Cfg) (s : State) : Nat :=
   rtRank cfg s.rt + hungTime s.rt s.now + mRoots s.st + scRank s.sc
   + (if s.core.live = true then 1 else 0) + (if s.core = .waitingFlag then 1 else 0)
-  + (if s.waiter = true then 1 else 0) + s.orphans
+  + (if s.waiter = true then 1 else 0) + s.orphans + (if s.orchPing = true then 0 else 1)
   + sumTo s.nSubs (mSub s.st s.kind s.withdrawn) + sumTo s.nWorkers (mWorker s.wk) + sumTo s.nDaemons (mDaemon s.dm)
 
 theorem mRoots_upd_lt (st : Task → TS) (r : Root) (x : TS) (h : rootPot x < rootPot (st (.root r))) :
